@@ -249,6 +249,7 @@ def verify_function(eng, con, only_scenarios=None):
                         add(f"raises.{E.__name__}{'(' + v.note + ')' if v.note else ''}", "raises", list(s2.pc),
                             False)
                     else:
+                        add(f"raises-listed.{E.__name__}", "raises", list(s2.pc), True)
                         for X in allowed:
                             rs = con.reasons.get(X)
                             if rs is not None:
